@@ -46,6 +46,7 @@ type shardT struct {
 	drained   bool // ReadNextTailBucket returned 0 in this incarnation
 	fresh     bool // no op on this shard since the restart
 	puts      bool // a put happened in this incarnation (so a writing file exists)
+	ghost     bool // a waiting file vanished and the tail reader has not reached it yet: sizes may still include it
 	damaged   bool // bytes were flipped / files truncated / a known finding fired: only the byte-identity oracle stays on
 	erasedIDs []int64
 }
@@ -73,6 +74,7 @@ func (s *shardT) onRestart() {
 	s.ep = 0
 	s.drained = false
 	s.fresh = true
+	s.ghost = false
 	s.puts = false
 	s.erasedIDs = nil
 }
@@ -222,7 +224,7 @@ func (w *world) obs(i int, what string) {
 
 func (w *world) stateOracle(i int, files []dfile, total, unsent int64) {
 	s := w.sh[i]
-	if s.damaged {
+	if s.damaged || s.ghost {
 		return
 	}
 	var sum int64
@@ -418,6 +420,7 @@ func (w *world) next(i int) (uint32, int64) {
 		w.skipped(i, s.ep, len(s.expect))
 		s.ep = len(s.expect)
 		s.drained = true
+		s.ghost = false // the tail reader has been through every waiting file: a vanished one is no longer accounted
 		w.h.Stat("next.end", 1)
 	}
 	s.fresh = false
@@ -434,7 +437,7 @@ func (w *world) skipped(i, from, to int) {
 	}
 	for k := from; k < to; k++ {
 		r := s.recs[s.expect[k]]
-		if r.maybe != 0 {
+		if r.maybe != 0 || r.lost {
 			continue
 		}
 		sig := "reread-missing"
@@ -508,6 +511,41 @@ func (w *world) tornErase(i int, id int64, k int) {
 	s.fresh = false
 	w.obsDiskOnly(i, "terase")
 	w.h.Stat(fmt.Sprintf("op.terase.k%d", k), 1)
+}
+
+// vanish: a tail file that was stat-ed at start-up and not yet opened disappears (removed from outside). Its seconds are
+// lost by an external cause (excluded from the loss oracle); the size accounting must again equal the bytes on disk once the
+// tail reader has been through the waiting list.
+func (w *world) vanish(i int, r *verifx.Rng) bool {
+	s := w.sh[i]
+	waiting := agent.VerifC09Waiting(w.d, i)
+	if len(waiting) == 0 {
+		return false
+	}
+	pick := filepath.Base(waiting[r.Intn(len(waiting))])
+	files := listStat(w.shardDir(i))
+	idx := -1
+	for k, f := range files {
+		if f.name == pick {
+			idx = k
+		}
+	}
+	if idx < 0 {
+		return false
+	}
+	w.h.Op("vanish %d %d", i, idx)
+	must(os.Remove(filepath.Join(w.shardDir(i), pick)))
+	for _, rc := range s.recs {
+		if rc.file == pick {
+			rc.lost = true
+		}
+	}
+	s.ghost = true
+	s.fresh = false
+	w.obsDiskOnly(i, "vanish")
+	w.h.Stat("op.vanish", 1)
+	w.mark("tail-file-vanished")
+	return true
 }
 
 func (w *world) flip(i, fi, off, x int) {
@@ -733,7 +771,7 @@ func runCase(h *verifx.H, root string, ci int, r *verifx.Rng) {
 					h.Viol("panic", "op panicked: %v", e)
 				}
 			}()
-			switch r.Pick(34, 16, 18, 14, 6, 5, 4, 3) {
+			switch r.Pick(34, 16, 18, 14, 6, 5, 4, 3, 3) {
 			case 0:
 				w.genPut(r, i)
 			case 1:
@@ -775,6 +813,16 @@ func runCase(h *verifx.H, root string, ci int, r *verifx.Rng) {
 					w.mark("torn-erase")
 					w.restart()
 					w.drainAll(true)
+				}
+			case 8: // a waiting tail file vanishes (usually right after a restart, when everything is waiting)
+				if len(agent.VerifC09Waiting(w.d, i)) == 0 && r.Chance(70, 100) {
+					w.restart()
+				}
+				if w.vanish(i, r) {
+					w.next(i)
+					if r.Chance(70, 100) {
+						w.drainAll(true)
+					}
 				}
 			case 7:
 				if kind == 1 {
@@ -859,19 +907,74 @@ func runBig(h *verifx.H, root string, ci int, r *verifx.Rng, buf []byte) {
 	must(err)
 	R := int(consts.FileRotateSize)
 	H := int(consts.HeaderSize)
-	if ci%4 == 3 { // maxChunkSize boundary on an empty shard
-		ln := int(consts.MaxChunkSize) + r.Range(0, 1)
-		h.Op("toobig %d", ln)
-		_, err := d.PutBucket(0, 7, buf[:ln])
+	M := int(consts.MaxChunkSize)
+	switch ci {
+	case 0, 1, 2: // the size limit of the writer against the size limit of the reader: REAL bodies of max, max-1, max+1 bytes
+		ln := []int{M, M - 1, M + 1}[ci]
+		h.Op("putprobe %d", ln)
+		body := buf[:ln]
+		id, err := d.PutBucket(0, 7, body)
 		files := listStat(dir + "/0")
-		h.Obs("toobig=%v", err != nil)
-		if (err != nil) != (ln > int(consts.MaxChunkSize)) {
+		if (err != nil) != (ln > M) {
 			h.Viol("big-chunk-limit", "put of %d bytes: err=%v", ln, err)
 		}
 		if err == nil && (len(files) != 1 || files[0].size != int64(ln+H)) {
 			h.Viol("big-put-size", "put of %d bytes left %d files", ln, len(files))
 		}
+		reread := false
+		if err == nil {
+			var sc []byte
+			g, e := d.GetBucket(0, id, 7, &sc)
+			if e != nil || !bytes.Equal(g, body) {
+				h.Viol("returned-bytes-differ", "body of %d bytes not read back before the restart: %v", ln, e)
+			}
+			must(d.Close())
+			d, err = agent.MakeDiskBucketStorage(dir, 1, nolog)
+			must(err)
+			tm, id2 := d.ReadNextTailBucket(0)
+			reread = id2 != 0 && tm == 7
+			if !reread {
+				h.Viol("boundary-second-lost", "a body of %d bytes (maxChunkSize=%d) was accepted by PutBucket, never erased, but is not re-read after a restart (got time %d id %d)", ln, M, tm, id2)
+			} else {
+				g, e = d.GetBucket(0, id2, 7, &sc)
+				if e != nil || !bytes.Equal(g, body) {
+					h.Viol("returned-bytes-differ", "body of %d bytes not read back after the restart: %v", ln, e)
+				}
+				tot, _ := d.TotalFileSize(0)
+				if tot != int64(ln+H) {
+					h.Viol("total-mismatch", "boundary: total=%d want %d", tot, ln+H)
+				}
+			}
+		}
+		h.Obs("putprobe accept=%v reread=%v", err == nil, reread)
+		h.Stat(fmt.Sprintf("big.putprobe%+d", ln-M), 1)
+		h.NonTrivial("max-chunk-boundary")
 		_ = d.Close()
+		return
+	case 3: // header-level probes of the tail reader with sparse files: chunk sizes max-1, max, max+1
+		_ = d.Close()
+		for k, ln := range []int{M - 1, M, M + 1} {
+			pd := filepath.Join(dir, fmt.Sprintf("p%d", k))
+			must(os.MkdirAll(filepath.Join(pd, "0"), 0o777))
+			var hd [20]byte
+			binary.LittleEndian.PutUint32(hd[0:], consts.MagicGood)
+			binary.LittleEndian.PutUint32(hd[4:], 7)
+			binary.LittleEndian.PutUint64(hd[8:], uint64(ln))
+			fn := filepath.Join(pd, "0", "20200101_000000.000000000.seconds")
+			must(os.WriteFile(fn, hd[:], 0o666))
+			must(os.Truncate(fn, int64(ln+H))) // sparse: the reader only looks at the header and the file size
+			h.Op("readprobe %d", ln)
+			dd, err := agent.MakeDiskBucketStorage(pd, 1, nolog)
+			must(err)
+			tm, id := dd.ReadNextTailBucket(0)
+			h.Obs("readprobe readable=%v", id != 0 && tm == 7)
+			if ln <= M && id == 0 {
+				h.Viol("boundary-second-lost", "the tail reader rejects a chunk of %d bytes that PutBucket accepts (maxChunkSize=%d)", ln, M)
+			}
+			_ = dd.Close()
+			h.Stat(fmt.Sprintf("big.readprobe%+d", ln-M), 1)
+		}
+		h.NonTrivial("max-chunk-boundary")
 		return
 	}
 	a := r.Range(R/2, R-100)          // first record body
